@@ -34,6 +34,7 @@ EXPECT_GLOBAL_TAGS = ("paging:multi_page", "paging:empty_page_in_the_middle", "i
 RFC = "%a, %d %b %Y %H:%M:%S GMT"
 BASE = "https://example.invalid/api/v1/"
 TZNAME = "America/Los_Angeles"
+ZONES = [TZNAME, "America/New_York", "Europe/Berlin"]  # documents of one result set need not share a zone
 
 # ---- model of the date/time environment (symbolic mode only) ------------------------------------------------------------
 
@@ -159,7 +160,7 @@ class PytzSym:
 
     def timezone(self, name):
         if name not in self.zones:
-            raise KeyError("unmodelled time zone %s" % name)
+            self.zones[name] = real_zone_model(name)
         return self.zones[name]
 
 
@@ -182,6 +183,10 @@ def install_time(cx):
         pz.zones[TZNAME] = real_zone_model(TZNAME)
         cx.patch(U, "pytz", pz)
         cx.patch(U, "datetime", DatetimeSym)
+        import acnportal.acndata.data_client as DC
+
+        if hasattr(DC, "pytz"):  # a client that resolves zones itself must meet the same model
+            cx.patch(DC, "pytz", pz)
         return pz
     return None
 
@@ -252,13 +257,13 @@ class Server:
         return Resp(headers={"x-total-count": 42})
 
 
-def make_doc(cx, tag, with_ts):
+def make_doc(cx, tag, with_ts, zone=TZNAME):
     did = cx.int("id_" + tag, 0, 10 ** 6)
     conn, t_conn = date_field(cx, "conn_" + tag)
     disc, t_disc = date_field(cx, "disc_" + tag)
-    doc = {"_id": did, "timezone": TZNAME, "connectionTime": conn, "disconnectTime": disc, "doneChargingTime": None, "sessionID": "2_39_%s" % tag,
+    doc = {"_id": did, "timezone": zone, "connectionTime": conn, "disconnectTime": disc, "doneChargingTime": None, "sessionID": "2_39_%s" % tag,
            "kWhDelivered": cx.real("kwh_" + tag, lo=0, hi=100), "siteID": "0002", "userInputs": [{"requestedDeparture": "left as text"}]}
-    truth = dict(id=did, connectionTime=t_conn, disconnectTime=t_disc, ts=None)
+    truth = dict(id=did, connectionTime=t_conn, disconnectTime=t_disc, ts=None, zone=zone)
     if with_ts:
         a, ta = date_field(cx, "ts0_" + tag)
         b, tb = date_field(cx, "ts1_" + tag)
@@ -272,8 +277,8 @@ def check_doc(cx, label, out, truth):
     cx.check(label + ":connectionTime_parsed", is_parsed(out["connectionTime"]) and is_parsed(out["disconnectTime"]))
     if is_parsed(out["connectionTime"]) and is_parsed(out["disconnectTime"]):
         cx.check(label + ":same_instant", and_(eq(instant_of(out["connectionTime"]), truth["connectionTime"]), eq(instant_of(out["disconnectTime"]), truth["disconnectTime"])))
-        cx.check(label + ":document_zone", zone_of(out["connectionTime"]) == TZNAME and zone_of(out["disconnectTime"]) == TZNAME, note=str(zone_of(out["connectionTime"])))
-    cx.check(label + ":other_fields_untouched", out["sessionID"].startswith("2_39_") and out["timezone"] == TZNAME and out["doneChargingTime"] is None and
+        cx.check(label + ":document_zone", zone_of(out["connectionTime"]) == truth["zone"] and zone_of(out["disconnectTime"]) == truth["zone"], note="%s, document zone %s" % (zone_of(out["connectionTime"]), truth["zone"]))
+    cx.check(label + ":other_fields_untouched", out["sessionID"].startswith("2_39_") and out["timezone"] == truth["zone"] and out["doneChargingTime"] is None and
              out["siteID"] == "0002" and out["userInputs"] == [{"requestedDeparture": "left as text"}])
     if truth["ts"] is not None:
         cx.tag("dates:nested_timestamps")
@@ -282,7 +287,7 @@ def check_doc(cx, label, out, truth):
         cx.check(label + ":nested_timestamps_parsed", ok)
         if ok:
             cx.check(label + ":nested_same_instant", and_(*[eq(instant_of(v), t) for v, t in zip(ts, truth["ts"])]))
-            cx.check(label + ":nested_zone", all(zone_of(v) == TZNAME for v in ts))
+            cx.check(label + ":nested_zone", all(zone_of(v) == truth["zone"] for v in ts))
         cx.check(label + ":nested_values_untouched", out["chargingCurrent"]["current"] == [6.0, 7.5] and out["pilotSignal"] == {"current": [8.0]})
 
 
@@ -307,7 +312,7 @@ def h_paging(cx, shape, site, cond, project, sort, timeseries):
     for p, k in enumerate(shape):
         page = []
         for i in range(k):
-            d, t = make_doc(cx, "%d_%d" % (p, i), with_ts=timeseries)
+            d, t = make_doc(cx, "%d_%d" % (p, i), with_ts=timeseries, zone=ZONES[(p + 2 * i) % len(ZONES)])
             page.append(d)
             truths.append(t)
         pages.append(page)
